@@ -606,8 +606,8 @@ class Gen(object):
       for ua in out:
         if ua[0] in RESTRUCTURING and not (ua[0] == 'CreateViewSection' and ua[4] is None):
           return [ua]
-        if has_summary and ua[0] in SCHEMA_UAS:
-          return [ua]       # schema changes reshape summary tables too
+        if has_summary and ua[0] in SCHEMA_UAS and not (ua[0] == 'ModifyColumn' and 'type' not in ua[3]):
+          return [ua]       # schema changes reshape summary tables too (formula / isFormula edits do not)
     if invalid_prob and r.random() < invalid_prob:
       out.append(self.ua_invalid(view))
     return out
